@@ -93,7 +93,13 @@ func (s svcInst) line() string {
 // TestC02bUpdateHistory: every finite sequence of valid and invalid service /
 // manual updates through the real loop: an invalid update leaves the active
 // table untouched, the next valid one is applied.
-func TestC02bUpdateHistory(t *testing.T) {
+func TestC02bUpdateHistory(t *testing.T) { updateHistory(t) }
+
+// C05: the operator's commands are applied on top of the service routes, in that order, whichever
+// side changed last - the same histories through the real update loop.
+func TestC05UpdateLoop(t *testing.T) { updateHistory(t) }
+
+func updateHistory(t *testing.T) {
 	be := startLoop()
 	hx.Check(t, hx.Scale(300, 5000), func(t *rapid.T) {
 		// a reset is itself a legal history: both sides empty gives an empty, valid table
